@@ -11,7 +11,8 @@ FORMS = {"v": "$%s", "b": "${%s}", "p": "$(%s)", "q": "`%s`"}
 RULE = ("values / outputs containing each operator character alone and embedded (40 values) delivered through $NAME, ${NAME}, $(...), "
         "backquotes, unquoted and double-quoted, at every argument position of a 1..3-argument command: line_to_cmds + "
         "CommandLine::from_line in-process (scripted command outputs) vs the Lean model vs the Lean spec (shape of the plan; argv for "
-        "double-quoted deliveries); double-quoted variable deliveries through the real binary with an argv helper and a new-file check. "
+        "double-quoted deliveries); filename expansion as the delivery (patterns over a fixture directory whose 21 entries spell operators, "
+        "redirections, substitutions, ranges, quotes: the glob crate's own answers are the oracle); double-quoted variable deliveries through the real binary with an argv helper and a new-file check. "
         "non-trivial = distinct (value, form, quoting, position)")
 
 
@@ -49,6 +50,12 @@ def generate(tier, rng):
                     ds = [("v", k, True) for k in range(n)]
                     ds[pos] = (form, pos, dq)
                     cases.append(mk("prog", ds, vals, {"gen": "e", "v": v, "form": form, "dq": dq, "pos": (pos, n)}))
+    # filename expansion as the delivery: patterns over the fixture's `ops/` directory, whose entries spell shell syntax
+    genv = gens.env_field(exported={"HOME": "/h"})
+    for pat in ["ops/g*", "ops/h*", "ops/i*", "ops/j*", "ops/k*", "ops/l*", "ops/m*", "ops/n*", "ops/o*", "ops/p*", "ops/r*", "ops/s*", "ops/t*",
+                "ops/v*", "ops/w*", "ops/*", "ops/&*", "ops/|*", "ops/>*", "ops/<*", "ops/y*", "ops/~*", "ops/*x", "ops/*k", "ops/*&", "ops/[*", "ops/nomatch*"]:
+        for p in ("prog", "./argv"):
+            cases.append(Case("plan1", [genv, hx(p + " " + pat), "c13g", hx(p), hx(pat)], {"gen": "glob", "v": pat, "form": "g", "dq": False, "pos": p, "kind": "argv"}))
     r = rng.fork("c13")
     n = 2000 if tier == "quick" else 30000
     for _ in range(n):
